@@ -7,7 +7,7 @@ from argh import HF, Arg, Config, hx, cat_of, elem_of, kind_of
 PROP = "C06"
 BATCH = 60
 RULE = ("case = one container destination (vector<int/string/double>, list, deque, forward_list, set<int/string>, multiset, "
-        "unordered_set, queue, stack, priority_queue, int[4], array<int,3>, tuple<int,string,double>, bitset<16>, vector<bool>, "
+        "unordered_set, queue, stack, priority_queue, int[4], array<int,3>, tuple<int,string,double>, bitset<16>, bitset<100>, vector<bool>, "
         "DynamicBitset, map<string,int>, multimap<int,string>, unordered_map<string,string>) with a legal option combination "
         "(list separator, clear-before-assign, sort, unique / unique-as-error, multi-value, unset-flag, per-element "
         "lower/upper/range checks, case formats for all values and per value position (addFormatPos), pre-existing content) + one element sequence of length 1..10 over a small "
@@ -15,18 +15,19 @@ RULE = ("case = one container destination (vector<int/string/double>, list, dequ
         "empty elements '1,,2', leading/trailing separator) and free values in multi-value mode. scenario = one cut executed on "
         "the real handler. Oracle: (a) all cuts of one sequence give the identical destination (needs no model); (b) the "
         "destination equals fold(options, initial content, elements) of the python model per container kind; (c) overflow "
-        "probes - N+1 elements into arrays/tuples, position >= N into bitset<N>, positions around the size of a pre-sized "
+        "probes - N+1 elements into arrays/tuples, position >= N and negative positions into bitset<N>, positions around the size of a pre-sized "
         "vector<bool>/DynamicBitset - must be refused resp. grow, never touch memory outside (ASan build). forward_list order "
         "is not judged (undocumented, compared as multiset). non-trivial = >= 2 elements cut into >= 2 pieces; distinct = hash "
         "of (configuration, argv).")
 ASSUMPTIONS = ["python fold per container kind (lib/props/c06.py model())", "fixed arrays with 'unique': judged only when the initial content differs from every value given",
                "growth of vector<bool>/DynamicBitset is not judged, only the set positions"]
 
-KINDS = ["vi", "vs", "vd", "li", "ds", "fl", "si", "ss", "msi", "us", "qu", "st", "pq", "ca", "ar", "tu", "bs", "vb", "db", "mp", "mm", "um"]
+KINDS = ["vi", "vs", "vd", "li", "ds", "fl", "si", "ss", "msi", "us", "qu", "st", "pq", "ca", "ar", "tu", "bs", "bb", "vb", "db", "mp", "mm", "um"]
+BITCAP = {"bs": 16, "bb": 100}
 SORTABLE = {"vi", "vs", "vd", "li", "ds", "fl", "ca", "ar"}
 UNIQUEABLE = {"vi", "vs", "vd", "li", "ds", "fl", "si", "ss", "msi", "us", "ca", "ar", "mp", "mm", "um"}
-CLEARABLE = {"vi", "vs", "vd", "li", "ds", "fl", "si", "ss", "msi", "us", "qu", "st", "pq", "bs", "vb", "db", "mp", "mm", "um"}
-UNSETTABLE = {"bs", "vb", "db"}
+CLEARABLE = {"vi", "vs", "vd", "li", "ds", "fl", "si", "ss", "msi", "us", "qu", "st", "pq", "bs", "bb", "vb", "db", "mp", "mm", "um"}
+UNSETTABLE = {"bs", "bb", "vb", "db"}
 CAPACITY = {"ca": 4, "ar": 3, "tu": 3}
 
 
@@ -49,7 +50,7 @@ def small_elem(rng, kind, i=0):
     if et == "string":
         return rng.choice(["a", "b", "c", "ab", "B", "x1", "A"])
     if et == "pos":
-        return str(rng.randint(0, 15))
+        return str(rng.randint(0, BITCAP.get(kind, 16) - 1))
     if et == "kv":
         if rng.random() < 0.02:
             return rng.choice(["a,", ",1", "a", "b,", ",x"])       # malformed pair: must be refused
@@ -68,7 +69,7 @@ def gen_arg(rng, kind):
     elif rng.random() < 0.2:
         a.long = None
     c = cat_of(a.slot)
-    if kind in ("vi", "vs", "vd", "li", "ds", "fl", "si", "ss", "msi", "us", "qu", "st", "pq", "ca", "ar", "tu", "bs", "vb", "db") and rng.random() < 0.35:
+    if kind in ("vi", "vs", "vd", "li", "ds", "fl", "si", "ss", "msi", "us", "qu", "st", "pq", "ca", "ar", "tu", "bs", "bb", "vb", "db") and rng.random() < 0.35:
         a.sep = rng.choice([";", ":", "|", "/", "#"])
     if c in ("map", "multimap", "umap") and rng.random() < 0.3:
         a.sep = rng.choice(["|", "/", "#", ":"])
@@ -79,7 +80,7 @@ def gen_arg(rng, kind):
             a.fmtkey.append(rng.choice(["upper", "lower"]))
         if kind in ("mm", "um") and rng.random() < 0.3:
             a.fmtval.append(rng.choice(["upper", "lower"]))
-    if kind in ("bs", "vb", "db", "ca", "ar", "vi", "li", "si", "qu", "pq") and rng.random() < 0.2:
+    if kind in ("bs", "bb", "vb", "db", "ca", "ar", "vi", "li", "si", "qu", "pq") and rng.random() < 0.2:
         # a format on numeric elements changes nothing, but the library takes a separate path when a format is set
         a.formats.append(rng.choice(["upper", "lower"]))
     if kind in ("ca", "ar") and rng.random() < 0.2:
@@ -110,8 +111,8 @@ def gen_arg(rng, kind):
         a.init = [str(rng.choice([0, 100, 101, 102])) for _ in range(n)] if rng.random() < 0.5 else ["0"] * n
     elif kind == "tu":
         a.init = ["9", "init", "9.5"] if rng.random() < 0.5 else None
-    elif kind == "bs":
-        a.init = [str(p) for p in sorted(rng.sample(range(16), rng.choice([0, 0, 2, 5])))]
+    elif kind in BITCAP:
+        a.init = [str(p) for p in sorted(rng.sample(range(BITCAP[kind]), rng.choice([0, 0, 2, 5])))]
     elif kind in ("vb", "db"):
         size = rng.choice([0, 1, 2, 8, 20])
         if kind == "db" and size == 0:
@@ -181,8 +182,8 @@ def model(a, elems_by_use):
             raise Reject("too-few")
         cur = [argh.conv("int", flat[0]), argh.fmt_elem(a, flat[1], 1), float(flat[2])]
         return cur
-    if kind in ("bs", "vb", "db"):
-        if kind == "bs":
+    if kind in ("bs", "bb", "vb", "db"):
+        if kind in BITCAP:
             cur = set(int(p) for p in init)
         else:
             cur = set(int(p) for p in init[1:])
@@ -190,7 +191,7 @@ def model(a, elems_by_use):
             cur = set()
         for e in flat:
             p = argh.conv("pos", e)
-            if kind == "bs" and p >= 16:
+            if kind in BITCAP and p >= BITCAP[kind]:
                 raise Reject("position")
             if a.unset:
                 cur.discard(p)
@@ -273,7 +274,7 @@ def pair_spelling(a, e):
 def canon(a, dump):
     """interpreter dump -> value comparable with model()"""
     kind = kind_of(a.slot)
-    if kind == "bs":
+    if kind in BITCAP:
         bits = dump[1:]
         return sorted(i for i, ch in enumerate(reversed(bits)) if ch == "1")
     if kind in ("vb", "db"):
@@ -370,7 +371,7 @@ def gen_case(seed, idx, tier):
     q = Arg("b0", "q", "quiet")
     q.init = "0"
     cfg.args.append(q)
-    probe = rng.random() < 0.2 and kind in ("ca", "ar", "tu", "bs", "vb", "db")
+    probe = rng.random() < 0.2 and kind in ("ca", "ar", "tu", "bs", "bb", "vb", "db")
     n = rng.choice([1, 2, 2, 3, 4, 5, 7, 10])
     if kind in CAPACITY:
         n = rng.choice([1, 2, 3, 4]) if kind == "ca" else rng.choice([1, 2, 3]) if kind == "ar" else 3
@@ -379,11 +380,12 @@ def gen_case(seed, idx, tier):
     if kind == "tu" and rng.random() < 0.15:
         n = rng.choice([1, 2])
     elems = [small_elem(rng, kind, i) for i in range(n)]
-    if probe and kind == "bs":
-        elems[rng.randrange(len(elems))] = str(rng.choice([16, 17, 100]))
+    if probe and kind in BITCAP:
+        # at / behind the size, and negative positions (wrap to huge unsigned values: refused as well)
+        elems[rng.randrange(len(elems))] = str(rng.choice([BITCAP[kind], BITCAP[kind] + 1, 100, 128, 1000, -1, -20, -64, -200]))
     if probe and kind in ("vb", "db"):
         size = int(a.init[0])
-        elems[rng.randrange(len(elems))] = str(rng.choice([max(size - 1, 0), size, size + 1, size * 3 // 2, size * 3 // 2 + 1, 2 * size + 5]))
+        elems[rng.randrange(len(elems))] = str(rng.choice([max(size - 1, 0), size, size + 1, size * 3 // 2, size * 3 // 2 + 1, 2 * size + 5, -1, -3]))
     if a.sep:
         elems = [e.replace(a.sepchar(), "_") for e in elems]
     if kind == "tu":
